@@ -440,7 +440,7 @@ Proof. vm_compute. split; reflexivity. Qed.
       grapheme segmentation of a key; [closest_m] = [get_closest] with it (no oracle); [prep v] = the input with every
       oracle replaced by what the model computes from the bytes and the raw queries. *)
 From TU Require Import C20_Bytes C20_BytesProofs.
-From TU Require C01_Model NFKC_Tie Lines_Model C19_Lines.
+From TU Require C01_Model NFKC_Tie Lines_Model C19_Lines NFKC_Model NFKC_Props UAX29_Model.
 
 (** the lossy reader cuts the file exactly where [BufRead::lines] cuts it (every 0x0A; one 0x0D before it dropped; a last
     piece without 0x0A is a line iff non-empty) and decodes every piece lossily — for EVERY byte string *)
@@ -607,3 +607,14 @@ Theorem check_closest_m_sound : forall (d : dict) norm nq qc a,
        ((kdist_m norm qc e' == kdist_m norm qc (v_bytes wv, Z.to_N fz))%Q -> snd e' <= Z.to_N fz)).
 Proof. exact check_closest_m_sound_l. Qed.
 Print Assumptions check_closest_m_sound.
+
+(** the query as [get] / [get_closest] see it ([normalize(s, NFKC, true)], computed by the model since topic M): every
+    cluster of [segment q] NFKC-normalised on its own; ASCII queries are left alone (NFKC_Props.v has the theorems about
+    [nfkc] itself) *)
+Theorem norm_query_spec : forall q, norm_query q = concat (map NFKC_Model.nfkc (UAX29_Model.segment q)).
+Proof. exact (fun q => NFKC_Props.normalize_g_spec NFKC_Model.NFKC q). Qed.
+Print Assumptions norm_query_spec.
+
+Theorem norm_query_ascii : forall q, Forall (fun c => c <= 127) q -> norm_query q = q.
+Proof. exact (fun q H => NFKC_Props.normalize_ascii NFKC_Model.NFKC true q H). Qed.
+Print Assumptions norm_query_ascii.
